@@ -392,7 +392,7 @@ def bounded_fast_vs_template(reg, tier, seed):
     gen = ContentGen(rng)
     quick = tier == "quick"
     evals, failures, seen, samples = 0, [], set(), []
-    stats = {"both_reject": 0, "mutations": 0, "unknown_pcode": 0, "tracker": 0, "cache": 0}
+    stats = {"generated": 0, "generated_both_reject": 0, "both_reject": 0, "mutations": 0, "unknown_pcode": 0, "tracker": 0, "cache": 0}
     live_pcodes = sorted(int(x) for x in tmpls.PCode)
 
     def fail(key, clause, inp, observed):
@@ -429,8 +429,12 @@ def bounded_fast_vs_template(reg, tier, seed):
             samples.append({"flags": flags, "pcode": pcode, "origin": origin, "payload_hex": data.hex()[:120] + "...", "bytes": len(data)})
         fv, fc, ferr = decode_fast(data)
         tv, tc, terr = decode_tmpl(data)
+        if origin == "generated":
+            stats["generated"] += 1
         if ferr and terr:
             stats["both_reject"] += 1
+            if origin == "generated":
+                stats["generated_both_reject"] += 1
             return None
         if ferr or terr:
             who = "hand-optimised decoder" if ferr else "declarative template"
@@ -471,8 +475,10 @@ def bounded_fast_vs_template(reg, tier, seed):
                           Block("ObjectData", UpdateFlags=0x10000104, Data=data))
             block = msg["ObjectData"][0]
             shown = block.deserialize_var("Data")
-            if {k: canon(x) for k, x in shown.items()} != tc:
-                fail("tracker/message-subfield", "the message-level subfield view equals the template's result", inp, "differs")
+            sc = {k: canon(x) for k, x in shown.items()}
+            if sc != tc:
+                fail("tracker/message-subfield", "the message-level subfield view equals the template's result", inp,
+                     f"differs in {sorted(k for k in set(sc) | set(tc) if sc.get(k, '?') != tc.get(k, '?'))[:4]}")
             block.serialize_var("Data", shown)
             if bytes(block["Data"]) != data:
                 fail("tracker/message-subfield", "re-encoding the displayed value through the message-level subfield path reproduces the payload",
@@ -572,7 +578,11 @@ def bounded_fast_vs_template(reg, tier, seed):
     finally:
         logging.disable(prev_disable)
 
-    n_flags = len({s for s in range(1 << N_FLAG_BITS)})
+    n_flags = 1 << N_FLAG_BITS
+    if stats["generated"] and stats["generated_both_reject"] * 2 > stats["generated"]:
+        # both decoders refuse most of what this encoder produces: the format moved on both sides and the comparison has become vacuous
+        fail("generator/out-of-domain", "the generated payloads are in the decoders' domain (otherwise nothing is being compared)",
+             {"generated": stats["generated"], "rejected_by_both": stats["generated_both_reject"]}, "more than half of the generated payloads are rejected by both decoders")
     return {"name": "fast-vs-template", "evaluations": evals, "distinct_nontrivial": len(seen),
             "rule": f"independent byte-level encoder of the compressed object-update format: all {n_flags} section-flag sets x "
                     f"{'2 kinds (avatar/primitive alternating + one rotating other kind)' if quick else 'all 6 enumerated kinds'} x {draws} draw(s) of section contents "
